@@ -72,6 +72,8 @@ fn bigstr(arg: i64) -> String {
         4 => "-1".into(),
         5 => "".into(),
         6 => "x".into(),
+        8 => "18446744073709551615".into(),
+        9 => "9223372036854775807".into(),
         _ => "007".into(),
     }
 }
@@ -241,6 +243,10 @@ fn mutate_json(doc: &mut Value, part: &str, idx: usize, op: &str, arg: i64) -> b
                     doc["annotationsets"].as_array_mut().unwrap().push(copy);
                 }
                 "include_missing" => *s = json!({"@type": "AnnotationDataSet", "@id": "sx", "@include": "missing.annotationset.stam.json"}),
+                // a stand-off dataset file that includes itself (written next to the store by load_event)
+                "include_self" => *s = json!({"@type": "AnnotationDataSet", "@id": "sx", "@include": "self.annotationset.stam.json"}),
+                // a second "data" member (placeholder name, renamed in the text by load_event) with a temporary identifier
+                "second_data" => s["zzz_second_data"] = json!([{"@type": "AnnotationData", "@id": format!("!D{}", bigstr(arg)), "key": key0, "value": {"@type": "String", "value": "zz"}}]),
                 _ => panic!("harness: unknown dataset mutation {}", op),
             }
             true
@@ -434,7 +440,11 @@ pub fn load_event(ctx: &Ctx, a: &Value) -> (String, Value) {
                     applied = mutate_json(&mut doc, part, idx, op, arg);
                     let mut text = String::new();
                     write_ordered(&doc, &mut text);
-                    text.into_bytes()
+                    if op == "include_self" && part == "set" {
+                        std::fs::write(dir.join("self.annotationset.stam.json"),
+                                       "{\"@type\": \"AnnotationDataSet\", \"@id\": \"sx\", \"@include\": \"self.annotationset.stam.json\"}").expect("harness: write");
+                    }
+                    text.replace("\"zzz_second_data\"", "\"data\"").into_bytes()
                 }
             };
             std::fs::write(&path, bytes).expect("harness: write");
